@@ -28,3 +28,19 @@ func init() {
 		},
 	})
 }
+
+func init() {
+	register(&propertySpec{
+		ID:          "C20",
+		Explanation: "placeholder",
+		NeedCG:      false,
+		Run: func(w *World, r *Report, tier string) {
+			guard(r, "CLI", func() { ruleCLI(w, r) })
+			guard(r, "DECIDE", func() {
+				ruleDECIDEChecker(w, r)
+				ruleDECIDEPredicates(w, r, map[string]bool{"par1": true, "par2": true})
+				ruleDECIDECounts(w, r, map[string]bool{"par1": true, "par2": true})
+			})
+		},
+	})
+}
